@@ -200,7 +200,54 @@ func TestC15(t *testing.T) {
 	shapeCase(c, "*state.ControlMessage", func(i int) *state.ControlMessage { return state.Reset(strconv.Itoa(i)) }, func(e *state.ControlMessage) int { n, _ := strconv.Atoi(e.Headers.Offset); return n }, true)
 	shapeCase(c, "named string", func(i int) namedStr { return namedStr(strconv.Itoa(i)) }, func(e namedStr) int { n, _ := strconv.Atoi(string(e)); return n }, false)
 	shapeCase(c, "named string with TypeNamer", func(i int) namedStrCustom { return namedStrCustom(strconv.Itoa(i)) }, func(e namedStrCustom) int { n, _ := strconv.Atoi(string(e)); return n }, true)
+	crossShape(c)
 	run.Sample(map[string]any{"shape": "*state.ChangeMessage", "event_type_name": ebu.EventType(&state.ChangeMessage{}), "go_type": "*state.ChangeMessage", "apis": []string{"persist-name", "replay-eventtype-compare", "subscribe-replay-phase", "subscribe-live-phase", "upcast-as-source", "upcast-as-target", "upcast-target-into-subscription"}})
 	run.Exhaustive(true)
 	_ = json.Valid
+}
+
+type versioned struct{ ID, V int }
+
+func (v versioned) EventTypeName() string { return fmt.Sprintf("c15.versioned.v%d", v.V) }
+
+// crossShape: shapes whose names differ must stay apart when they share one store, and a name that
+// depends on the value is persisted per event.
+func crossShape(c *caseCtx) {
+	for _, kind := range []string{"memory", "sqlite-mem", "memory-paged"} {
+		st, err := stores.Open(kind, c.scratch)
+		if err != nil {
+			panic(err)
+		}
+		ctx := context.Background()
+		bus := ebu.New(ebu.WithStore(st.Store), ebu.WithSubscriptionStore(st.Sub))
+		ebu.Publish(bus, plain{1})
+		ebu.Publish(bus, &plain{2})
+		ebu.Publish(bus, plain{3})
+		ebu.Publish(bus, namedPtr{4})
+		ebu.Publish(bus, &namedPtr{5})
+		ebu.Publish(bus, versioned{ID: 6, V: 1})
+		ebu.Publish(bus, versioned{ID: 7, V: 2})
+		ebu.Publish(bus, versioned{ID: 8, V: 1})
+		bus2 := ebu.New(ebu.WithStore(st.Store), ebu.WithSubscriptionStore(st.Sub))
+		var byVal, byPtr, npVal, npPtr []int
+		ebu.SubscribeWithReplay(ctx, bus2, "cs1", func(e plain) { byVal = append(byVal, e.ID) })
+		ebu.SubscribeWithReplay(ctx, bus2, "cs2", func(e *plain) { byPtr = append(byPtr, e.ID) })
+		ebu.SubscribeWithReplay(ctx, bus2, "cs3", func(e namedPtr) { npVal = append(npVal, e.ID) })
+		ebu.SubscribeWithReplay(ctx, bus2, "cs4", func(e *namedPtr) { npPtr = append(npPtr, e.ID) })
+		got := fmt.Sprint(byVal, byPtr, npVal, npPtr)
+		want := "[1 3] [2] [4] [5]"
+		c.run.Case("cross-shape-isolation|"+kind, true)
+		if got != want {
+			c.run.Violation("typename:cross-shape-isolation", fmt.Sprintf("store %s: value and pointer events of one struct share a store; SubscribeWithReplay for plain / *plain / namedPtr / *namedPtr received %s, want %s (each typed subscription selects exactly the events persisted under its EventType name)", kind, got, want), map[string]any{"store": kind})
+		}
+		evs, _, _ := st.Store.Read(ctx, ebu.OffsetOldest, 0)
+		c.run.Case("value-dependent-name|"+kind, true)
+		for i, w := range []string{"c15.versioned.v1", "c15.versioned.v2", "c15.versioned.v1"} {
+			if len(evs) != 8 || evs[5+i].Type != w {
+				c.run.Violation("typename:persist-name:value-dependent", fmt.Sprintf("store %s: an event whose EventTypeName depends on its value was persisted as %q, EventType reports %q", kind, evs[min(5+i, len(evs)-1)].Type, w), map[string]any{"store": kind})
+				break
+			}
+		}
+		st.Close()
+	}
 }
